@@ -166,20 +166,36 @@ int main() {
         if (w[0] == "case") { hdr = w; lines.clear(); continue; }
         if (w[0] != "end") { lines.push_back(w); continue; }
         std::cout << "case " << hdr[1] << std::endl;
+        int ep[2];
+        if (pipe(ep) != 0) return 2;
         pid_t pid = fork();
         if (pid == 0) {
+            close(ep[0]);
+            dup2(ep[1], 2);     // the sanitizer report of the child: its SUMMARY line is added to the `crash` line
+            close(ep[1]);
             alarm(20);
             run_case(lines);
             S().log_line("end");
             std::cout.flush();
             _exit(0);
         }
+        close(ep[1]);
+        std::string err;
+        {
+            char buf[4096];
+            ssize_t n;
+            while ((n = read(ep[0], buf, sizeof buf)) > 0) err.append(buf, (std::size_t)n);
+            close(ep[0]);
+        }
         int st = 0;
         waitpid(pid, &st, 0);
         if (!(WIFEXITED(st) && WEXITSTATUS(st) == 0)) {
             if (WIFEXITED(st) && WEXITSTATUS(st) == 3) { /* assertion already reported */ }
             else {
-                std::cout << "crash " << (WIFSIGNALED(st) ? "signal " + std::to_string(WTERMSIG(st)) : "exit " + std::to_string(WEXITSTATUS(st))) << "\n";
+                std::string sum;
+                auto p = err.find("SUMMARY:");
+                if (p != std::string::npos) sum = " " + err.substr(p, err.find('\n', p) - p);
+                std::cout << "crash " << (WIFSIGNALED(st) ? "signal " + std::to_string(WTERMSIG(st)) : "exit " + std::to_string(WEXITSTATUS(st))) << sum << "\n";
                 std::cout << "end" << std::endl;
             }
         }
